@@ -24,8 +24,10 @@ pub enum Fam {
     Vec,
     Mut,
     Rev,
+    /// single boxes and uninit slices (`coll::boxes`)
+    BoxMisc,
 }
-pub const FAMS: [Fam; 5] = [Fam::Boxed, Fam::Fixed, Fam::Vec, Fam::Mut, Fam::Rev];
+pub const FAMS: [Fam; 6] = [Fam::Boxed, Fam::Fixed, Fam::Vec, Fam::Mut, Fam::Rev, Fam::BoxMisc];
 
 #[derive(Clone, Debug)]
 pub struct CollParams {
@@ -380,6 +382,10 @@ where
     let _ = cb0;
     let before = pos_tuple(bump.stats());
     match fam {
+        Fam::BoxMisc => {
+            super::boxes::run::<A, S, E>(ctx, &mut bump, p.ops.min(24));
+            tr::set_fuel(None);
+        }
         Fam::Boxed => {
             ctx.begin(format!("create BumpBox<[{}]> with {n0} elements", E::NAME));
             let mut i = 0;
